@@ -16,6 +16,17 @@ Monitors
 * ambient serial registry (weak references to every ParameterCollection ever constructed in the shard): no two live
   constructed/deep-copied collections share a number; numbers handed out after a database load are not loaded ones.
 * read-only law: after ``makeParametersReadOnly`` every assignment is refused and the observation does not change.
+
+Mechanism keys of the genuine defects this check reproduces on the pinned tree (reported to the lead, see known_findings.json):
+  grid/nested-scope-single-backup-slot                  StructuredGrid.backUp keeps one slot; nested scopes restore the inner entry state
+  restoreBackup/kept-array-shape-change-raises          kept array whose shape changed: ``retained != current`` cannot broadcast, exit aborts
+  restoreBackup/kept-array-broadcast-equal-lost         kept array whose new value broadcasts equal to the old one is silently dropped
+  restoreBackup/kept-container-of-arrays-raises         kept list/dict holding arrays (even unchanged): ``!=`` is ambiguous, exit aborts
+  cache/material-cache-leaks/scope-target-own-material  a scope opened on a component does not back up that component's own material cache
+  readonly/setNumberDensity-changes-value               updateNumberDensities mutates the dict in place before the refusal
+  readonly/history-tuple-item-changes-value             ``p[(name, ts)] = v`` bypasses the read-only switch
+The generator steers away from these unless a case is meant to plant one (``hazard`` in the case description), so that the rest of
+the history is still judged on the unrepaired tree.
 """
 import copy
 import gc
